@@ -87,6 +87,18 @@ def run_case(prog, init, pattern, acc, con, lib, fuel=4000, limit=60000, respell
                 acc.violation('run-depends-on-option-shape:' + ','.join(bad), f'options {sorted(k for k in extra)} dropped/changed: {alt["status"]!r} {alt.get("result")!r:.200} vs {real["status"]!r} {real.get("result")!r:.200}\n{text}',
                               dict(case, option_shape=sorted(extra)))
                 break
+    if verdict == 'ok' and respell is None and len(text) % 5 == 2 and real['status'] in ('ok',) and split_ok(prog):
+        # history: the function definitions run in ONE execute_script call, the rest of the program in a LATER call on the same globals
+        # with its own options and log function - the functions defined earlier belong to the run that calls them
+        alt = split_run(prog, init, pattern, limit, debug)
+        acc.count('split_definition_runs')
+        if alt is not None:
+            bad = [k for k in ('status', 'result', 'logs', 'globals') if alt[k] != real[k]]
+            if alt['defs_logs']:
+                bad.append('definition-run-logged')
+            if bad:
+                acc.violation('functions-of-an-earlier-run-misbehave:' + ','.join(bad), '; '.join(f'{k}: split={alt.get(k)!r:.300} single={real.get(k)!r:.300}' for k in bad if k in alt)
+                              + f' definition-run log={alt["defs_logs"][:3]!r}\n{text}', dict(case, split=True))
     _drain(con, acc, 'C01', case)
     nontrivial = bool(real and real.get('logs')) and any(k in text for k in ('while ', 'for ', 'if '))
     acc.case((text, repr(sorted(case['init'].items(), key=str)) if isinstance(case['init'], dict) else '', pattern), nontrivial)
@@ -95,6 +107,36 @@ def run_case(prog, init, pattern, acc, con, lib, fuel=4000, limit=60000, respell
         acc.sample({'program': text.split('\n')[:40], 'init': case['init'], 'pattern': pattern,
                     'result': real['result'], 'log_lines': len(real['logs']), 'first_logs': real['logs'][:5]})
     return verdict
+
+
+def split_ok(prog):
+    """All function definitions are the leading top-level statements (no conditional / late / repeated definition)."""
+    k = 0
+    while k < len(prog) and prog[k][0] == 'func':
+        k += 1
+    names = [st[1] for st in prog[:k]]
+    return 0 < k < len(prog) and len(set(names)) == len(names) and "['func'," not in repr(prog[k:])
+
+
+def split_run(prog, init, pattern, limit, debug=False):
+    import copy
+    bare_script, library, rt_err, p_err = exec_prog.real_api()
+    k = next(i for i, st in enumerate(prog) if st[0] != 'func')
+    g = copy.deepcopy(init)
+    h = exec_prog.hosts(pattern if pattern is None else list(pattern))
+    g.update(h)
+    logs_a, logs_b = [], []
+    try:
+        with exec_prog.core.alarm(20):
+            bare_script.execute_script(bare_script.parse_script('\n'.join(pp(prog[:k]))), {'globals': g, 'logFn': logs_a.append, 'maxStatements': limit, 'debug': debug})
+            try:
+                res = bare_script.execute_script(bare_script.parse_script('\n'.join(pp(prog[k:]))), {'globals': g, 'logFn': logs_b.append, 'maxStatements': limit, 'debug': debug})
+                status = 'ok'
+            except rt_err as exc:
+                status, res = 'rterr:' + str(exc), None
+    except exec_prog.core.CaseTimeout:
+        return None
+    return {'status': status, 'result': refval.canon(res), 'logs': logs_b, 'defs_logs': logs_a, 'globals': exec_prog.user_globals(g, library, h)}
 
 
 def drain_loops(stmts):
